@@ -290,6 +290,10 @@ pub struct GenCfg {
     pub w_tr_far: u32,
     /// Allow payload styles other than xorshift.
     pub styles: bool,
+    /// Weight (out of 100) of multi-record batches among appends.
+    pub w_multi_batch: u32,
+    /// Skew `QSel::Existing` towards the first queues (busy queues vs. idle ones).
+    pub skew_queues: bool,
 }
 
 #[derive(Clone, Debug)]
@@ -346,6 +350,8 @@ impl Default for GenCfg {
             w_tr_ahead: 12,
             w_tr_far: 3,
             styles: true,
+            w_multi_batch: 45,
+            skew_queues: false,
         }
     }
 }
@@ -363,8 +369,15 @@ fn weighted<T: Clone + std::fmt::Debug + 'static>(
 
 pub fn qsel_strategy(cfg: &GenCfg) -> BoxedStrategy<QSel> {
     let pool = cfg.pool.max(1);
+    let existing = if cfg.skew_queues {
+        (any::<u16>(), any::<u16>())
+            .prop_map(|(a, b)| QSel::Existing(((a as u32 * b as u32) >> 16) as u16))
+            .boxed()
+    } else {
+        any::<u16>().prop_map(QSel::Existing).boxed()
+    };
     weighted(vec![
-        (80, any::<u16>().prop_map(QSel::Existing).boxed()),
+        (80, existing),
         (cfg.w_missing_names.max(1) * 3, (0..pool).prop_map(QSel::Pool).boxed()),
         (cfg.w_special_names, (0u8..8).prop_map(QSel::Special).boxed()),
     ])
@@ -456,7 +469,7 @@ pub fn batch_strategy(cfg: &GenCfg) -> BoxedStrategy<Vec<PaySel>> {
         return single;
     }
     let multi = proptest::collection::vec(paysel_strategy(cfg), 0..=max_batch).boxed();
-    weighted(vec![(55, single), (45, multi)])
+    weighted(vec![(100u32.saturating_sub(cfg.w_multi_batch), single), (cfg.w_multi_batch, multi)])
 }
 
 pub fn sop_strategy(cfg: &GenCfg) -> BoxedStrategy<SOp> {
